@@ -23,6 +23,11 @@
 (* tdefaults]_vars, and RequestIsolation: every request of the session is  *)
 (* what a transport fresh from its constructor would have sent for it.     *)
 (*                                                                         *)
+(* Here the requests of a session are made ONE AFTER THE OTHER (the        *)
+(* refresh callback answers at once); requests IN FLIGHT TOGETHER - the    *)
+(* schedule as a dimension, TLC exploring the interleavings - are          *)
+(* TransportConc.tla, over the same TransportCore.                         *)
+(*                                                                         *)
 (* Families (constant Family):                                             *)
 (*   "single"  : one request; plug-in subsets of <= MaxPlugins in every    *)
 (*               order, wrappings, shortcut, all header-name overlap       *)
@@ -81,7 +86,7 @@ InitSingle ==
   \E r \in ReqSeqs(d, 1), kn \in KeyNames(p, d), hn \in HdrNames(p), pa \in BOOLEAN, co \in BOOLEAN :
   \E bo \in (IF BodyTied THEN {~co} ELSE BOOLEAN) :
      sc = [plugs |-> p, tree |-> w, short |-> s, dflt |-> d, reqs |-> r, rets |-> AllNew(1), ca |-> ca, kn |-> kn,
-           hn |-> hn, params |-> pa, cookies |-> co, body |-> bo]
+           hn |-> hn, params |-> pa, cookies |-> co, body |-> bo, sched |-> <<>>]
 
 \* sessions: the caller-side Authorization header only in the per-request layer (that is what can leak), caller
 \* params / cookies / body always present (every request is judged for them)
@@ -90,7 +95,7 @@ InitSession ==
   \E w \in Wraps(p), s \in Shorts(p), d \in {"none", "tag"}, ca \in {"none", "req-equal", "req-casevar"} :
   \E r \in ReqSeqs(d, MaxReqs), t \in RetSeqs(p, MaxReqs), kn \in KeyNames(p, d), hn \in HdrNames(p) :
      sc = [plugs |-> p, tree |-> w, short |-> s, dflt |-> d, reqs |-> r, rets |-> t, ca |-> ca, kn |-> kn,
-           hn |-> hn, params |-> TRUE, cookies |-> TRUE, body |-> TRUE]
+           hn |-> hn, params |-> TRUE, cookies |-> TRUE, body |-> TRUE, sched |-> <<>>]
 
 \* overlapping plug-in groups: everything in a group writes the same thing, so the ORDER of application is observable
 OverlapGroups == {{"B", "O", "OR", "H"}, {"KH", "KH2"}, {"KQ", "KQ2"}, {"KC", "KC2"}}
@@ -99,7 +104,8 @@ InitNesting ==
   \E w \in TreeUniverse(MaxTreeLen, 3) :
   \E p \in {q \in OverlapSeqs : Len(q) = Stars(w)} :
      sc = [plugs |-> p, tree |-> w, short |-> FALSE, dflt |-> "tag", reqs |-> <<"disjoint">>, rets |-> AllNew(1),
-           ca |-> "none", kn |-> "disjoint", hn |-> "equal", params |-> TRUE, cookies |-> TRUE, body |-> TRUE]
+           ca |-> "none", kn |-> "disjoint", hn |-> "equal", params |-> TRUE, cookies |-> TRUE, body |-> TRUE,
+           sched |-> <<>>]
 
 Init ==
   /\ CASE Family = "single" -> InitSingle [] Family = "session" -> InitSession [] OTHER -> InitNesting
@@ -124,7 +130,7 @@ PerRequest ==
   /\ pc = "perrequest"
   /\ prepared' = StepPerRequest(Variant, cfg.requests[k], prepared)
   /\ tdefaults' = DefaultsAfter(Variant, tdefaults, prepared')
-  /\ args' = ScratchOf(Variant, cfg, prepared')
+  /\ args' = ScratchOf(Variant, cfg.reqargs[k], prepared')
   /\ pending' = cfg.tree /\ lidx' = 1 /\ depth' = 0
   /\ pc' = IF cfg.tree # <<>> THEN "auth" ELSE IF cfg.bearer # "" THEN "shortcut" ELSE "send"
   /\ UNCHANGED <<sc, k, stored, calls, wires, verdict>>
@@ -169,7 +175,7 @@ Shortcut ==
 
 Send ==
   /\ pc = "send"
-  /\ wires' = Append(wires, WireOf(Variant, cfg, IF cfg.tree # <<>> THEN args.headers ELSE prepared, args, calls,
+  /\ wires' = Append(wires, WireOf(Variant, cfg.reqargs[k], IF cfg.tree # <<>> THEN args.headers ELSE prepared, args, calls,
                                    tdefaults))
   /\ IF k < Len(cfg.requests) THEN k' = k + 1 /\ pc' = "defaults" ELSE k' = k /\ pc' = "sent"
   /\ UNCHANGED <<sc, tdefaults, stored, prepared, args, pending, lidx, depth, calls, verdict>>
